@@ -62,6 +62,24 @@ ValueExact ==
                ELSE /\ IsRounding(neg, FromInt(N), One, E, ps.val, m)
                     /\ ps.err = (IF ps.val.k = "inf" THEN "range" ELSE "none")
 
+\* ---- the stream scanner against Parse: on every string (no letters of inf/nan, no white space in the alphabet) ----
+\* a well-formed literal is scanned to the same outcome and consumed entirely; a string of numeral characters that is
+\* not well-formed is refused (or the stream ends after a lone sign); scanning "s s" with two receivers gives the value twice;
+\* whatever the input, the scanner stops inside the stream and never before its starting point
+HasX == \E i \in 1..Len(s) : s[i] = 120
+ScanAgreesWithParse ==
+  (stage = 1 /\ Family = "syn" /\ s # << >>) =>
+    LET ps == ParseSem(s, m)
+        o == ScanOne(s, 1, m)
+        two == ScanMany(s \o <<32>> \o s, 1, 2, m)
+    IN /\ o.p >= 1 /\ o.p <= Len(s) + 1
+       /\ (ps.err # "syntax") => (o.err = ps.err /\ o.val = ps.val /\ o.p = Len(s) + 1)
+       /\ (ps.err = "syntax" /\ ~HasX) => (o.err \in {"syntax", "eof"} /\ o.p = Len(s) + 1)
+       /\ (ps.err = "syntax" /\ HasX) => o.p <= 1 + Len(s)
+       /\ (ps.err = "none") => (Len(two.outs) = 2 /\ two.outs[1].val = ps.val /\ two.outs[2].val = ps.val /\ two.p = 2 * Len(s) + 2)
+       /\ (ps.err = "range") => (Len(two.outs) = 1 /\ two.p = Len(s) + 1)
+       /\ ScanOne(<<32, 9>> \o s, 1, m).err = o.err
+
 \* ---- C06 on every value ----
 ParseBack(t) == ParseSem(t, RNE)
 TextOf(d) == StringSem(d)
